@@ -208,6 +208,7 @@ func init() {
 		reg(lp+n+"f", noop)
 	}
 	reg(lp+"Tracer", func(fr *frame, args []Value) Value { return (*Value)(nil) })
+	reg(lp+"AddTracer", func(fr *frame, args []Value) Value { return Tuple{args[0], (*Value)(nil)} })
 	reg("github.com/safing/portbase/utils.SafeFirst16Bytes", func(fr *frame, args []Value) Value { return fr.e.strConst("<data>") })
 	reg("github.com/safing/portbase/utils.SafeFirst16Chars", func(fr *frame, args []Value) Value { return fr.e.strConst("<data>") })
 
